@@ -6,16 +6,16 @@
 struct IoError { k: u8 }
 enum Cell { Blank, Vis(Seq<char>, nat) }     // Vis(s, j): the j-th visible column of the string s that was written
 struct GTerm {
-    w: nat, h: nat,
+    w: nat, h: nat, tty: bool,
     row: int, col: nat,
     cells: spec_fn(int) -> Cell,
     ops: nat,                  // number of cursor / write / clear operations performed (silence, C06)
     flushed: nat,
 }
 impl GTerm {
-    spec fn wf(self) -> bool { self.w >= 1 && self.h >= 1 && self.col <= self.w }
+    spec fn wf(self) -> bool { 1 <= self.w <= 65535 && 1 <= self.h <= 65535 && self.col <= self.w }   // width()/height() return u16
     spec fn lin(self) -> int { self.row * self.w + self.col }
-    spec fn same_geom(self, o: GTerm) -> bool { self.w == o.w && self.h == o.h }
+    spec fn same_geom(self, o: GTerm) -> bool { self.w == o.w && self.h == o.h && self.tty == o.tty }
 }
 uninterp spec fn cols(s: Seq<char>) -> nat;     // console::measure_text_width
 #[verifier::external_body]
@@ -38,32 +38,33 @@ spec fn is_cr(s: Seq<char>) -> bool { s == seq!['\r'] }
 
 // R10: `&(impl TermLike + ?Sized)`, `Box<dyn TermLike>`, `&dyn TermLike` and console::Term all
 // become this one model type; R2: its &self methods take &mut self.
-struct Term { g: Ghost<GTerm>, tty: bool }
+struct Term { g: Ghost<GTerm> }
 impl Term {
     spec fn view(&self) -> GTerm { self.g@ }
     #[verifier::external_body]
     fn width(&self) -> (r: u16) requires self@.wf() ensures r as nat == self@.w { unimplemented!() }
     #[verifier::external_body]
     fn height(&self) -> (r: u16) requires self@.wf() ensures r as nat == self@.h { unimplemented!() }
-    fn is_term(&self) -> (r: bool) ensures r == self.tty { self.tty }
+    #[verifier::external_body]
+    fn is_term(&self) -> (r: bool) ensures r == self@.tty { unimplemented!() }
     #[verifier::external_body]
     fn move_cursor_up(&mut self, n: usize) -> (r: Result<(), IoError>)
         requires old(self)@.wf()
-        ensures final(self)@.same_geom(old(self)@), final(self)@.wf(), final(self).tty == old(self).tty, final(self)@.flushed == old(self)@.flushed,
+        ensures final(self)@.same_geom(old(self)@), final(self)@.wf(), final(self)@.flushed == old(self)@.flushed,
             r.is_ok() ==> final(self)@.row == old(self)@.row - n && final(self)@.cells == old(self)@.cells
                 && final(self)@.col == old(self)@.col && final(self)@.ops == old(self)@.ops + 1
     { unimplemented!() }
     #[verifier::external_body]
     fn move_cursor_down(&mut self, n: usize) -> (r: Result<(), IoError>)
         requires old(self)@.wf()
-        ensures final(self)@.same_geom(old(self)@), final(self)@.wf(), final(self).tty == old(self).tty, final(self)@.flushed == old(self)@.flushed,
+        ensures final(self)@.same_geom(old(self)@), final(self)@.wf(), final(self)@.flushed == old(self)@.flushed,
             r.is_ok() ==> final(self)@.row == old(self)@.row + n && final(self)@.cells == old(self)@.cells
                 && final(self)@.col == old(self)@.col && final(self)@.ops == old(self)@.ops + 1
     { unimplemented!() }
     #[verifier::external_body]
     fn clear_line(&mut self) -> (r: Result<(), IoError>)
         requires old(self)@.wf()
-        ensures final(self)@.same_geom(old(self)@), final(self)@.wf(), final(self).tty == old(self).tty, final(self)@.flushed == old(self)@.flushed,
+        ensures final(self)@.same_geom(old(self)@), final(self)@.wf(), final(self)@.flushed == old(self)@.flushed,
             r.is_ok() ==> ({
                 let t = old(self)@; let t2 = final(self)@;
                 &&& t2.row == t.row && t2.col == 0 && t2.ops == t.ops + 1
@@ -74,7 +75,7 @@ impl Term {
     #[verifier::external_body]
     fn write_str(&mut self, s: &str) -> (r: Result<(), IoError>)
         requires old(self)@.wf()
-        ensures final(self)@.same_geom(old(self)@), final(self)@.wf(), final(self).tty == old(self).tty, final(self)@.flushed == old(self)@.flushed,
+        ensures final(self)@.same_geom(old(self)@), final(self)@.wf(), final(self)@.flushed == old(self)@.flushed,
             r.is_ok() && !is_cr(s@) ==> after_write(old(self)@, s@, final(self)@),
             r.is_ok() && is_cr(s@) ==> final(self)@.row == old(self)@.row && final(self)@.col == 0
                 && final(self)@.cells == old(self)@.cells && final(self)@.ops == old(self)@.ops + 1
@@ -82,7 +83,7 @@ impl Term {
     #[verifier::external_body]
     fn write_line(&mut self, s: &str) -> (r: Result<(), IoError>)
         requires old(self)@.wf()
-        ensures final(self)@.same_geom(old(self)@), final(self)@.wf(), final(self).tty == old(self).tty, final(self)@.flushed == old(self)@.flushed,
+        ensures final(self)@.same_geom(old(self)@), final(self)@.wf(), final(self)@.flushed == old(self)@.flushed,
             r.is_ok() ==> exists|m: GTerm| after_write(old(self)@, s@, m)
                 && final(self)@.row == m.row + 1 && final(self)@.col == 0
                 && final(self)@.cells == m.cells && final(self)@.ops == m.ops
@@ -90,7 +91,7 @@ impl Term {
     #[verifier::external_body]
     fn flush(&mut self) -> (r: Result<(), IoError>)
         requires old(self)@.wf()
-        ensures final(self)@.same_geom(old(self)@), final(self)@.wf(), final(self).tty == old(self).tty,
+        ensures final(self)@.same_geom(old(self)@), final(self)@.wf(),
             final(self)@.ops == old(self)@.ops,
             r.is_ok() ==> final(self)@.row == old(self)@.row && final(self)@.col == old(self)@.col
                 && final(self)@.cells == old(self)@.cells && final(self)@.flushed == old(self)@.flushed + 1,
